@@ -74,6 +74,16 @@ func (x *Exec) call(fr *Frame, st *State, in ssa.CallInstruction, pos token.Pos)
 	if fv.K == KFunc && fv.Term != nil && x.rootFrame != nil && x.rootFrame.contract != nil && x.rootFrame.contract.PureCallbacks {
 		return x.callbackCall(fv, c.Value.Type(), args, resT)
 	}
+	// `selfcallback`: a recursive closure calling itself through the variable it is assigned to (var iter func(..);
+	// iter = func(..) { .. iter(x) .. }): the call is a call of the closure under verification, with the same captures
+	if fr == x.rootFrame && x.rootFrame != nil && x.rootFrame.contract != nil && x.rootFrame.contract.SelfCallback && x.rootFrame.fn.Parent() != nil {
+		if u, ok := c.Value.(*ssa.UnOp); ok && u.Op == token.MUL {
+			if _, isFV := u.X.(*ssa.FreeVar); isFV && types.Identical(c.Signature(), x.rootFrame.fn.Signature) {
+				x.trusted["selfcallback: the function variable "+exprText(c.Value)+" that "+funcDisplayName(x.rootFrame.fn)+" calls is the closure itself (the variable it captures is assigned exactly once, to this closure)"] = true
+				return x.callStatic(fr, st, x.rootFrame.fn, args, x.rootFrame.bind, resT, pos)
+			}
+		}
+	}
 	x.unmod["call through function value "+exprText(c.Value)] = true
 	x.havocAll(st)
 	return x.freshResult(st, resT, "dyncall")
@@ -505,6 +515,24 @@ func (x *Exec) applyContract(fr *Frame, st *State, c *Contract, fn *ssa.Function
 	for k, v := range vars {
 		post.vars[k] = v
 	}
+	// a closure called through its contract: the variables it captures by reference and assigns hold arbitrary
+	// values afterwards (its postconditions speak about them as post_<name>)
+	if fn != nil && len(fn.FreeVars) > 0 && x.applyBind != nil {
+		for i, fv := range fn.FreeVars {
+			if i >= len(x.applyBind) {
+				break
+			}
+			v := x.applyBind[i]
+			pt, isPtr := fv.Type().(*types.Pointer)
+			if v.K != KPtr || !isPtr {
+				continue
+			}
+			if closureAssigns(fn, i) {
+				x.store(st, v.P, x.freshValue("cap_"+fv.Name(), pt.Elem(), st.guard))
+			}
+			post.vars["post_"+fv.Name()] = x.load(st, v.P, pt.Elem())
+		}
+	}
 	x.bindResults(c, fn, post.vars, res, sig)
 	for _, e := range c.Ensures {
 		if exprUsesGhost(e.E) {
@@ -897,6 +925,21 @@ func (x *Exec) checkFrame(fr *Frame, st *State, pos token.Pos) {
 			allowed[loc.key] = append(allowed[loc.key], loc.ref)
 		}
 	}
+	// a closure may assign the variables it captures by reference (its contract speaks about them as post_<name>)
+	for i, fv := range fr.fn.FreeVars {
+		if i >= len(fr.bind) {
+			break
+		}
+		v := fr.bind[i]
+		pt, isPtr := fv.Type().(*types.Pointer)
+		if v.K != KPtr || !isPtr || v.P.Cell != nil || !closureAssigns(fr.fn, i) {
+			continue
+		}
+		for _, l := range leavesOf(pt.Elem()) {
+			key, _, _ := x.leafKey(v.P, l)
+			allowed[key] = append(allowed[key], v.P.Base)
+		}
+	}
 	if st.havocID != 0 {
 		// an unmodelled call may have written anything, including arrays this function never reads
 		x.oblige(fr, st, "frame", "*", "", False, pos, "assigns (an unmodelled call on some path may write anything)")
@@ -1259,6 +1302,18 @@ func (x *Exec) ifaceCallSiteObligations(fr *Frame, st *State, recv *Value, m *ty
 			}
 		}
 	}
+	// ghost call counter (as for static calls)
+	if x.ncallCells != nil {
+		for _, k := range []string{full, m.Name()} {
+			if c, ok := x.ncallCells[k]; ok {
+				if cur, have := st.cells[c]; have {
+					st.cells[c] = scalar(tInt, Add(cur.Term, IntLit(1)))
+					x.cellsW[c] = true
+				}
+				break
+			}
+		}
+	}
 }
 
 func exprUsesGhost(e *Expr) bool {
@@ -1423,6 +1478,35 @@ func hasBackEdge(fn *ssa.Function) bool {
 		for _, s := range b.Succs {
 			if s.Dominates(b) {
 				return true
+			}
+		}
+	}
+	return false
+}
+
+// closureAssigns: the closure (or a closure nested in it that captures the same variable) stores to its i-th free variable.
+func closureAssigns(fn *ssa.Function, i int) bool {
+	if i >= len(fn.FreeVars) {
+		return false
+	}
+	fv := fn.FreeVars[i]
+	for _, b := range fn.Blocks {
+		for _, in := range b.Instrs {
+			switch in := in.(type) {
+			case *ssa.Store:
+				if in.Addr == fv {
+					return true
+				}
+			case *ssa.MakeClosure:
+				inner, ok := in.Fn.(*ssa.Function)
+				if !ok {
+					continue
+				}
+				for j, bnd := range in.Bindings {
+					if bnd == fv && closureAssigns(inner, j) {
+						return true
+					}
+				}
 			}
 		}
 	}
